@@ -1,0 +1,55 @@
+//go:build verif
+
+// Machine-checked contracts (gowp, see /verif/DESIGN.md). Comment-only file:
+// nothing here is compiled into the package.
+
+package quicmemberlist
+
+// ---- C37: the member table stays consistent -------------------------------------
+//
+// present(id) = mhas(m.addrs, id): the members by address id;
+// m.members[node] = the list of present members of that node.
+
+// the id of an address is a function of the address (ip, port)
+//@ func memberid
+//@   trusted
+//@   pure
+
+//@ func removeMemberByID
+//@   prop C37
+//@   requires forall(k, 0 <= k && k < len(members) ==> members[k] != nil)
+//@   loop 0 invariant left != nil && 0 <= len(left) && len(left) <= rangeindex + 1
+//@   loop 0 invariant sreg(left) != sreg(members)
+//@   loop 0 invariant forall(k, 0 <= k && k < len(members) ==> members[k] == pre(members[k]))
+//@   loop 0 invariant forall(j, 0 <= j && j < len(left) ==> left[j] != nil && memberid(left[j].Addr()) != id)
+//@   loop 0 invariant forall(k, 0 <= k && k <= rangeindex && memberid(members[k].Addr()) != id ==> exists(j, 0 <= j && j < len(left) && left[j] == members[k]))
+//@   ensures [none-with-id] forall(j, 0 <= j && j < len(r0) ==> r0[j] != nil && memberid(r0[j].Addr()) != id)
+//@   ensures [keeps-others] forall(k, 0 <= k && k < len(members) && memberid(members[k].Addr()) != id ==> exists(j, 0 <= j && j < len(r0) && r0[j] == members[k]))
+//@   ensures [no-growth] len(r0) <= len(members)
+
+//@ func (*membersPool).Get
+//@   prop C37
+//@   requires m.addrs != nil && k != nil
+//@   ensures [found] r1 == (mhas(m.addrs, memberid(k)) && mval(m.addrs, memberid(k), Member) != nil)
+//@   ensures [value] r1 ==> r0 == mval(m.addrs, memberid(k), Member)
+
+//@ func (*membersPool).Exists
+//@   prop C37
+//@   requires m.addrs != nil && k != nil
+//@   ensures r0 == mhas(m.addrs, memberid(k))
+
+//@ func (*membersPool).Set
+//@   prop C37
+//@   requires m.addrs != nil && m.members != nil && member != nil
+//@   requires mhas(m.members, member.Address().String()) ==> forall(k, 0 <= k && k < len(mval(m.members, member.Address().String(), []Member)) ==> mval(m.members, member.Address().String(), []Member)[k] != nil)
+//@   modifies mview(m.addrs), mview(m.members), *
+//@   ensures [present] mhas(m.addrs, memberid(member.Addr())) && mval(m.addrs, memberid(member.Addr()), Member) == member
+//@   ensures [added] added == !old(mhas(m.addrs, memberid(member.Addr())))
+//@   ensures [listed] mhas(m.members, member.Address().String()) && len(mval(m.members, member.Address().String(), []Member)) >= 1 && mval(m.members, member.Address().String(), []Member)[len(mval(m.members, member.Address().String(), []Member)) - 1] == member
+//@   ensures [once] forall(j, 0 <= j && j < len(mval(m.members, member.Address().String(), []Member)) - 1 ==> memberid(mval(m.members, member.Address().String(), []Member)[j].Addr()) != memberid(member.Addr()))
+//@   ensures [keeps-others] old(mhas(m.members, member.Address().String())) ==> forall(k, 0 <= k && k < len(old(mval(m.members, member.Address().String(), []Member))) && memberid(old(mval(m.members, member.Address().String(), []Member)[k]).Addr()) != memberid(member.Addr()) ==> exists(j, 0 <= j && j < len(mval(m.members, member.Address().String(), []Member)) && mval(m.members, member.Address().String(), []Member)[j] == old(mval(m.members, member.Address().String(), []Member)[k])))
+
+// interface contracts (A9)
+//@ func (Member).Address
+//@   pure
+//@   ensures r0 != nil
